@@ -40,7 +40,7 @@ def gen_case(seed, i):
     cfg["threads"] = ["1"]
     nroots = rng.choice([1, 2, 3])
     world, roots = gen.gen_world(rng, cfg, nroots=nroots, hostile=rng.random() < 0.7, max_files=rng.choice([6, 12, 20]),
-                                 families=rng.randint(1, 4), min_len=1)
+                                 families=rng.randint(1, 4), min_len=1, hostile_roots=rng.random() < 0.3)
     gflags = []
     if nroots >= 2 and rng.random() < 0.3:
         gflags.append("--isolate")
